@@ -67,6 +67,9 @@ UNDER_TEST = [
     (C("ROLEQ", "MARG", frame="NED", gain="high"), {"magnetic_ref": 60.0, "__repeat_only__": True}, False, (C("ROLEQ", "MARG", frame="ENU", gain="low"), {"magnetic_ref": 55.0}, True)),
     (C("EKF", "MARG", frame="NED", gain="high"), {"magnetic_ref": 60.0}, False),
     (C("Mahony", "MARG", gain="high"), {}, False), (C("AQUA", "MARG", mode="fixed", gain="high"), {}, False),
+    # the per-sensor noise options (handled by name inside the class)
+    (C("EKF", "MARG", frame="NED", gain="low", rate="3Hz"), {"magnetic_ref": 60.0, "var_acc": 0.01, "var_gyr": 0.002, "var_mag": 0.6}, True),
+    (C("EKF", "IMU", frame="ENU", gain="low", rate="3Hz"), {"var_acc": 0.02}, True),
 ]
 
 
@@ -112,14 +115,14 @@ def solo(ti):
     return [[float(x).hex() for x in row] for row in out]
 
 
-def fresh_solo(ti):
+def fresh_solo(ti, hashseed=None):
     """the same in a FRESH interpreter (nothing else has been constructed there): the reference for isolation from
     process-wide state (module-level caches, class attributes, NumPy's global RNG)"""
     import subprocess, sys, json, os
     code = "import sys, json; sys.path.insert(0, %r); sys.path.insert(0, %r); import warnings; warnings.filterwarnings('ignore'); from vf.props import c06; print(json.dumps(c06.solo(%d)))" % (
         os.path.dirname(os.path.dirname(os.path.dirname(os.path.abspath(__file__)))), os.environ.get("AHRS_REPO", "/repo"), ti)
     try:
-        p = subprocess.run([sys.executable, "-c", code], stdout=subprocess.PIPE, stderr=subprocess.PIPE, text=True, env=dict(os.environ, PYTHONDONTWRITEBYTECODE="1"), timeout=900)
+        p = subprocess.run([sys.executable, "-c", code], stdout=subprocess.PIPE, stderr=subprocess.PIPE, text=True, env=dict(os.environ, PYTHONDONTWRITEBYTECODE="1", **({} if hashseed is None else {"PYTHONHASHSEED": str(hashseed)})), timeout=900)
     except subprocess.TimeoutExpired:
         return {"error": "no result within 900 s"}
     if p.returncode != 0:
@@ -269,6 +272,13 @@ def run(chk):
     from concurrent.futures import ThreadPoolExecutor
     with ThreadPoolExecutor(16) as ex:
         fresh = list(ex.map(fresh_solo, range(len(UNDER_TEST))))
+        # the same run in interpreters with other string-hash seeds (the order of sets and dicts of strings differs between them)
+        for hs in (101, 202):
+            other_seed = list(ex.map(lambda ti_: fresh_solo(ti_, hs), range(len(UNDER_TEST))))
+            for ti_, (a_, b_) in enumerate(zip(fresh, other_seed)):
+                if not isinstance(a_, dict) and a_ != b_:
+                    chk.fail("C06|%s|depends-on-the-interpreter's-hash-seed" % name_of(UNDER_TEST[ti_][0]),
+                             {"PYTHONHASHSEED": hs, "here": (b_ if isinstance(b_, dict) else b_[-1]), "default": a_[-1]})
     import multiprocessing as mp
     # one process per configuration, forked from this parent (which has constructed no estimator): what "ran before" in the
     # process is then exactly the OTHER configuration of replay_behaviours, not whatever a reused pool worker did earlier
